@@ -26,7 +26,8 @@ import copy
 import json
 import os
 
-PURE_CALLS = {"len", "bool", "str", "repr", "int", "tuple", "list", "frozenset", "set", "sorted", "isinstance", "hasattr", "getattr", "abs", "min", "max", "hex", "id", "dict"}
+# calls without effect whose result is an immutable value (a fresh list / dict / set has an identity: it is never substituted)
+PURE_CALLS = {"len", "bool", "str", "repr", "int", "tuple", "frozenset", "isinstance", "hasattr", "getattr", "abs", "min", "max", "hex", "id"}
 RE_METHODS = {"match", "search", "fullmatch", "sub", "subn", "split", "findall", "finditer"}
 
 
@@ -217,6 +218,7 @@ def inline_module_constants(tree):
             if _is_compile(s.value) or (_is_const_expr(s.value) and nm.startswith("_")):
                 consts[nm] = s.value
     if not consts:
+        _ReCanon().visit(tree)
         return tree
     # chains: a constant defined from another constant
     tr = _ConstInliner(consts, set())
@@ -818,6 +820,8 @@ def _replace_node(root, old, new):
 # ----------------------------------------------------------------------
 
 def _pure(e):
+    if isinstance(e, (ast.List, ast.Dict, ast.Set)):
+        return False  # a new mutable object: the variable names its identity
     for n in ast.walk(e):
         if isinstance(n, ast.Call):
             if not (isinstance(n.func, ast.Name) and n.func.id in PURE_CALLS):
